@@ -315,7 +315,7 @@ def run_shard(ctx):
     from mindsdb_sql.planner.query_planner import QueryPlanner
     from mindsdb_sql.exceptions import PlanningException
     acc = ctx.acc
-    n = 1500 if ctx.tier == 'quick' else 20000
+    n = 1500 if ctx.tier == 'quick' else 60000
     styles = ['lower', 'upper', 'cap']
     for i in range(n):
         if not ctx.mine(i):
